@@ -274,7 +274,11 @@ func c12Body(x *explore.Ctx, connIdx int, bytePos int) {
 		x.Check(hsref.NamesExtensionOutsideQuotes(extOffer, "permessage-deflate"), key("deflate-announced-not-offered"), "permessage-deflate announced although the offer names it only inside a quoted string (or not at all): %q", extOffer)
 	}
 	if wf {
-		x.Check(announced == (offeredDeflate && u.EnableCompression), key("deflate-announcement"), "permessage-deflate announced=%v, offered=%v enabled=%v (offer %q)", announced, offeredDeflate, u.EnableCompression, extOffer)
+		// "only if": a server may decline an offer; it must not announce what was not offered or enabled
+		x.Check(!announced || (offeredDeflate && u.EnableCompression), key("deflate-announcement"), "permessage-deflate announced=%v, offered=%v enabled=%v (offer %q)", announced, offeredDeflate, u.EnableCompression, extOffer)
+		if len(extOffer) == 1 && extOffer[0] == "permessage-deflate" && u.EnableCompression {
+			x.Check(announced, key("plain-offer-declined"), "plain permessage-deflate offer to an Upgrader with EnableCompression not announced")
+		}
 	} else {
 		x.Check(!announced || u.EnableCompression, key("deflate-announcement"), "permessage-deflate announced although disabled")
 	}
